@@ -6,6 +6,7 @@
 mod common;
 mod fixtures;
 mod props;
+mod subm;
 
 use common::*;
 use std::io::{BufRead, Write};
